@@ -25,6 +25,10 @@ const fhirQuantityRegexp = `^(?P<value>(\+|-)?\d+(\.\d+)?)\s*('(?P<unit>[^']+)'|
 
 var regex = regexp.MustCompile(fhirQuantityRegexp)
 
+// The strings convertible to a Decimal:
+// https://hl7.org/fhirpath/N1/#convertstodecimal-boolean
+var decimalRegex = regexp.MustCompile(`^(\+|-)?\d+(\.\d+)?$`)
+
 // ConvertsToBoolean checks if the input can be converted to a Boolean
 // FHIRPath docs here: https://hl7.org/fhirpath/N1/#convertstoboolean-boolean
 func ConvertsToBoolean(ctx *expr.Context, input system.Collection, args ...expr.Expression) (system.Collection, error) {
@@ -221,7 +225,7 @@ func ToBoolean(ctx *expr.Context, input system.Collection, args ...expr.Expressi
 	// Input reading
 	value, err := system.From(input[0])
 	if err != nil {
-		return nil, err
+		return system.Collection{}, nil
 	}
 	// Input conversion
 	switch value := value.(type) {
@@ -268,8 +272,12 @@ func ToDate(ctx *expr.Context, input system.Collection, args ...expr.Expression)
 	case system.Date:
 		return system.Collection{value}, nil
 	case system.DateTime:
-		dt := value.String()
-		result := system.MustParseDate(dt[:10])
+		// the date part, at the precision the value has (2020T -> 2020)
+		dt, _, _ := strings.Cut(value.String(), "T")
+		result, err := system.ParseDate(dt)
+		if err != nil {
+			return system.Collection{}, nil
+		}
 		return system.Collection{result}, nil
 	case system.String:
 		result, err := system.ParseDate(string(value))
@@ -333,7 +341,7 @@ func ToDecimal(ctx *expr.Context, input system.Collection, args ...expr.Expressi
 	// Input reading
 	value, err := system.From(input[0])
 	if err != nil {
-		return nil, err
+		return system.Collection{}, nil
 	}
 	// Input conversion
 	switch value.(type) {
@@ -348,6 +356,9 @@ func ToDecimal(ctx *expr.Context, input system.Collection, args ...expr.Expressi
 		return system.Collection{result}, nil
 	case system.String:
 		str := fmt.Sprintf("%s", value)
+		if !decimalRegex.MatchString(str) {
+			return system.Collection{}, nil
+		}
 		result, err := system.ParseDecimal(str)
 		if err != nil {
 			return system.Collection{}, nil
@@ -379,7 +390,7 @@ func ToInteger(ctx *expr.Context, input system.Collection, args ...expr.Expressi
 	// Input reading
 	value, err := system.From(input[0])
 	if err != nil {
-		return nil, err
+		return system.Collection{}, nil
 	}
 	// Input conversion
 	switch value.(type) {
@@ -429,7 +440,7 @@ func ToQuantity(ctx *expr.Context, input system.Collection, args ...expr.Express
 	// Input reading
 	value, err := system.From(input[0])
 	if err != nil {
-		return nil, err
+		return system.Collection{}, nil
 	}
 	// Input conversion
 	switch value := value.(type) {
@@ -479,8 +490,25 @@ func ToQuantity(ctx *expr.Context, input system.Collection, args ...expr.Express
 			return system.Collection{result}, nil
 		}
 		res := strings.SplitN(string(value), " ", 2)
+		if len(res) < 2 {
+			// no blank between the number and the unit, or no unit at all
+			unit := matches[regex.SubexpIndex("unit")]
+			if unit == "" {
+				unit = matches[regex.SubexpIndex("time")]
+			}
+			if unit == "" {
+				unit = DefaultQuantityUnit
+			}
+			res = []string{matches[regex.SubexpIndex("value")], unit}
+		}
 		unit := strings.Trim(res[1], "'")
-		result := system.MustParseQuantity(res[0], unit)
+		if quoted := matches[regex.SubexpIndex("unit")]; quoted != "" {
+			unit = quoted
+		}
+		result, err := system.ParseQuantity(res[0], unit)
+		if err != nil {
+			return system.Collection{}, nil
+		}
 		return system.Collection{result}, nil
 	case system.Boolean:
 		if value {
